@@ -6,6 +6,7 @@ package main
 import (
 	"fmt"
 	"math/big"
+	"os"
 	"sort"
 	"strings"
 	"sync"
@@ -62,12 +63,12 @@ var (
 	RefSort  = internSort(&Sort{Kind: SUnint, Name: "Ref"})
 )
 
-func BV(w int) *Sort            { return internSort(&Sort{Kind: SBV, Width: w}) }
-func ArrSort(i, e *Sort) *Sort  { return internSort(&Sort{Kind: SArr, Idx: i, Elem: e}) }
-func UnintSort(n string) *Sort  { return internSort(&Sort{Kind: SUnint, Name: n}) }
-func (s *Sort) IsBV() bool      { return s.Kind == SBV }
-func (s *Sort) IsArr() bool     { return s.Kind == SArr }
-func (s *Sort) IsBool() bool    { return s.Kind == SBool }
+func BV(w int) *Sort           { return internSort(&Sort{Kind: SBV, Width: w}) }
+func ArrSort(i, e *Sort) *Sort { return internSort(&Sort{Kind: SArr, Idx: i, Elem: e}) }
+func UnintSort(n string) *Sort { return internSort(&Sort{Kind: SUnint, Name: n}) }
+func (s *Sort) IsBV() bool     { return s.Kind == SBV }
+func (s *Sort) IsArr() bool    { return s.Kind == SArr }
+func (s *Sort) IsBool() bool   { return s.Kind == SBool }
 
 type Term struct {
 	Op    string // "const" (named constant / variable), "bv", "true", "false", "app" (UF application) or an SMT operator
@@ -82,17 +83,19 @@ type Term struct {
 }
 
 type Ctx struct {
-	tab    map[string]*Term
-	nextID int
-	decls  map[string]string // name -> declaration line (consts and funs)
+	tab       map[string]*Term
+	nextID    int
+	decls     map[string]string // name -> declaration line (consts and funs)
 	declOrder []string
-	fresh  map[string]int
-	defs   []string // define-fun / define-fun-rec / axioms text emitted before everything
-	defined map[string]bool // names defined in defs (not to be declared)
-	defUses map[string]bool // declared symbols used by defs
+	fresh     map[string]int
+	defs      []string        // define-fun / define-fun-rec / axioms text emitted before everything
+	defined   map[string]bool // names defined in defs (not to be declared)
+	defUses   map[string]bool // declared symbols used by defs
 	// distinct: pairs of terms known to differ in the query being built (the negative case of a contract
 	// `split a == b`); consulted by the read-over-write rule of Select.  Set and cleared by caseQueries only.
 	distinct map[[2]*Term]bool
+	symCache map[*Term]*symInfo // pruneAxioms: symbols per assumption
+	noPrune  bool               // set while the scripts of a cover (vacuity) query are built: those keep every axiom
 }
 
 func NewCtx() *Ctx {
@@ -264,8 +267,8 @@ func (c *Ctx) BVConst(v *big.Int, w int) *Term {
 }
 func (c *Ctx) BVInt(v int64, w int) *Term { return c.BVConst(big.NewInt(v), w) }
 
-func (t *Term) IsTrue() bool  { return t.Op == "true" }
-func (t *Term) IsFalse() bool { return t.Op == "false" }
+func (t *Term) IsTrue() bool    { return t.Op == "true" }
+func (t *Term) IsFalse() bool   { return t.Op == "false" }
 func (t *Term) IsConstBV() bool { return t.Op == "bv" }
 
 func (t *Term) SignedVal() *big.Int {
@@ -671,6 +674,22 @@ func (c *Ctx) Select(arr, idx *Term) *Term {
 	if arr.Sort.Idx != idx.Sort {
 		panic(fmt.Sprintf("Select index sort mismatch %s vs %s", arr.Sort, idx.Sort))
 	}
+	// a read of a conditional array whose branches are updates of one another at this very index (the heap family after
+	// a join where one branch stored into the object read) is the conditional of the reads
+	if arr.Op == "ite" && idx.Sort == RefSort && os.Getenv("HOPVC_NO_ITEPUSH") == "" {
+		t, e := arr.Args[1], arr.Args[2]
+		if (t.Op == "store" && t.Args[1] == idx) || (e.Op == "store" && e.Args[1] == idx) {
+			return c.Ite(arr.Args[0], c.Select(t, idx), c.Select(e, idx))
+		}
+	}
+	// ... and likewise a read of "A or A-with-one-cell-updated" (quantified facts about A are then matched by the
+	// solvers' triggers, which do not look inside a conditional array)
+	if arr.Op == "ite" && idx.Sort != RefSort && os.Getenv("HOPVC_NO_ITEPUSH") == "" {
+		t, e := arr.Args[1], arr.Args[2]
+		if (t.Op == "store" && t.Args[0] == e) || (e.Op == "store" && e.Args[0] == t) {
+			return c.Ite(arr.Args[0], c.Select(t, idx), c.Select(e, idx))
+		}
+	}
 	// read-over-write when decidable syntactically
 	a := arr
 	for depth := 0; depth < 64; depth++ {
@@ -963,6 +982,9 @@ func (c *Ctx) Query(assumes []*Term, goal *Term, getValues []*Term, timeoutMs in
 func (c *Ctx) QueryGV(assumes []*Term, goal *Term, getValues []*Term, timeoutMs int) (string, []string) {
 	body := &strings.Builder{}
 	p := &printer{c: c, names: map[int]string{}, out: body, used: map[string]bool{}}
+	if !c.noPrune && os.Getenv("HOPVC_NO_PRUNE") == "" {
+		assumes = c.pruneAxioms(assumes, goal)
+	}
 	for _, a := range assumes {
 		p.define(a)
 		fmt.Fprintf(body, "(assert %s)\n", p.ref(a))
@@ -1012,7 +1034,6 @@ func (c *Ctx) QueryGV(assumes []*Term, goal *Term, getValues []*Term, timeoutMs 
 	return head.String(), gvAll
 }
 
-
 // freeBoundVars lists the bound variables occurring free in t.
 func freeBoundVars(t *Term) []*Term {
 	var out []*Term
@@ -1055,4 +1076,138 @@ func isValueTerm(t *Term) bool {
 		return isValueTerm(t.Args[0])
 	}
 	return false
+}
+
+// pruneAxioms drops closed axioms (top-level forall without free symbols other than specification functions)
+// none of whose specification-function symbols is connected - directly or through other kept axioms or through
+// the bodies of defined specification functions - to the rest of the query.  Dropping hypotheses is sound; such an
+// axiom only constrains symbols the rest of the query never mentions, but its presence makes the solvers give up
+// ("incomplete") on otherwise easy goals.
+type symInfo struct {
+	syms   map[string]bool
+	closed bool
+}
+
+func (c *Ctx) pruneAxioms(assumes []*Term, goal *Term) []*Term {
+	symsOf := func(t *Term) (map[string]bool, bool) {
+		out := map[string]bool{}
+		closed := true
+		seen := map[*Term]bool{}
+		var rec func(t *Term)
+		rec = func(t *Term) {
+			if seen[t] {
+				return
+			}
+			seen[t] = true
+			switch t.Op {
+			case "app":
+				out[t.Name] = true
+			case "const":
+				closed = false
+			}
+			for _, a := range t.Args {
+				rec(a)
+			}
+			for _, ps := range t.Pats {
+				for _, q := range ps {
+					rec(q)
+				}
+			}
+		}
+		rec(t)
+		return out, closed
+	}
+	if c.symCache == nil {
+		c.symCache = map[*Term]*symInfo{}
+	}
+	cached := func(t *Term) *symInfo {
+		if si, ok := c.symCache[t]; ok {
+			return si
+		}
+		m, closed := symsOf(t)
+		si := &symInfo{m, closed}
+		c.symCache[t] = si
+		return si
+	}
+	type ax struct {
+		i    int
+		syms map[string]bool
+	}
+	var cands []ax
+	present := map[string]bool{}
+	add := func(m map[string]bool) {
+		for k := range m {
+			present[k] = true
+		}
+	}
+	g, _ := symsOf(goal)
+	add(g)
+	for i, a := range assumes {
+		si := cached(a)
+		m, closed := si.syms, si.closed
+		hasSpec := false
+		for k := range m {
+			if strings.HasPrefix(k, "spec.") {
+				hasSpec = true
+			}
+		}
+		if a.Op == "forall" && closed && hasSpec {
+			cands = append(cands, ax{i, m})
+		} else {
+			add(m)
+		}
+	}
+	if len(cands) == 0 {
+		return assumes
+	}
+	// symbols used by the bodies of defined specification functions
+	defDeps := map[string][]string{}
+	for _, d := range c.defs {
+		f := strings.Fields(d)
+		if len(f) < 2 {
+			continue
+		}
+		name := strings.Trim(f[1], "|")
+		for _, tok := range strings.FieldsFunc(d, func(r rune) bool { return r == '(' || r == ')' || r == ' ' || r == '|' }) {
+			if (strings.HasPrefix(tok, "spec.") || tok == "rng") && tok != name {
+				defDeps[name] = append(defDeps[name], tok)
+			}
+		}
+	}
+	keep := map[int]bool{}
+	for changed := true; changed; {
+		changed = false
+		for k := range present {
+			for _, d := range defDeps[k] {
+				if !present[d] {
+					present[d] = true
+					changed = true
+				}
+			}
+		}
+		for _, a := range cands {
+			if keep[a.i] {
+				continue
+			}
+			for k := range a.syms {
+				if present[k] {
+					keep[a.i] = true
+					add(a.syms)
+					changed = true
+					break
+				}
+			}
+		}
+	}
+	isCand := map[int]bool{}
+	for _, a := range cands {
+		isCand[a.i] = true
+	}
+	var out []*Term
+	for i, a := range assumes {
+		if !isCand[i] || keep[i] {
+			out = append(out, a)
+		}
+	}
+	return out
 }
